@@ -190,8 +190,11 @@ class HybridCache(_CacheBase):
         normalized_access_counts = {
             k: v / total_access_count for k, v in self._access_counts.items()
         }
+        # All durations can be zero (e.g. results that were computed instantly);
+        # every normalized duration is then zero instead of 0 / 0.
         normalized_durations = {
-            k: v / total_duration for k, v in self._computation_durations.items()
+            k: v / total_duration if total_duration else 0.0
+            for k, v in self._computation_durations.items()
         }
 
         # Calculate scores using a weighted sum
